@@ -38,35 +38,54 @@ POINTS = [Fraction(7, 3), Fraction(-11, 5), Fraction(13, 7), Fraction(-17, 4), F
 #   "fb" via: "method" x.feedback(y, sign) | "func" control.feedback(x, y, sign) |
 #             "*-sign" the same without the sign argument (sign = -1) | "*-all" without y and sign
 #             (y = 1, sign = -1); a scalar / array x (function form only) is converted first
+# >>> rus: optional case key "rus" = [how, scope] - the documented option remove_useless_states
+#   how   : "set_defaults" ct.set_defaults('statesp', remove_useless_states=True) |
+#           "dict" ct.config.defaults['statesp.remove_useless_states'] = True |
+#           "legacy" ct.use_legacy_defaults('0.8.3') | "kw" the constructor keyword (leaves only)
+#   scope : "ops" operands built with the option off, every operator runs with it on |
+#           "all" operands built and operators run with it on |
+#           "leaves" only the operands are built with it on (keyword, or a configuration that is
+#           reset before the arithmetic)
+#   driver line: the instruction `rus` (final processing of the constructor) after every leaf /
+#   after every node whose evaluation ends in a StateSpace(...) call.
+# <<< rus
 # ----------------------------------------------------------------------------
 
-def flatten(t):
+def flatten(t, rl=False, ro=False):
+    """postfix program of the tree.  rus: `rl` - the leaves are built with the option
+    remove_useless_states on, `ro` - the operators run with it on: the instruction `rus` follows
+    every leaf / every node whose evaluation ends in a `StateSpace(...)` call (`G ** 1` returns
+    `self`, a call of series / parallel / append with one operand copies it: no call)."""
+    f = lambda x: flatten(x, rl, ro)
+    R = " rus" if ro else ""
     k = t[0]
     if k == "L":
         _, n, p, m, dt, A, B, C, D = t
-        return "L %d %d %d %s %s" % (n, p, m, dt, " ".join(A + B + C + D))
+        return "L %d %d %d %s %s" % (n, p, m, dt, " ".join(A + B + C + D)) + (" rus" if rl else "")
     if k == "S":
         return "S " + t[1]
     if k == "A":
         return "A %d %d %s" % (t[1], t[2], " ".join(t[3]))
     if k == "neg":
-        return flatten(t[1]) + " neg"
+        return f(t[1]) + " neg" + R
     if k == "negate":
-        return flatten(t[1]) + " negate"
+        return f(t[1]) + " negate" + R
     if k in NARY:
-        return " ".join(flatten(x) for x in t[1:]) + " %s %d" % (k, len(t) - 1)
+        if ro:      # the fold of the code, one constructor call per step
+            return f(t[1]) + "".join(" %s %s 2 rus" % (f(x), k) for x in t[2:])
+        return " ".join(f(x) for x in t[1:]) + " %s %d" % (k, len(t) - 1)
     if k == "pow":
-        return flatten(t[2]) + " pow %d" % t[1]
+        return f(t[2]) + " pow %d" % t[1] + (R if t[1] != 1 else "")
     if k == "fb":
         conv = " tosys" if t[3][0] in ("S", "A") else ""      # bdalg.feedback converts a constant sys1
-        return flatten(t[3]) + conv + " " + flatten(t[4]) + " fb " + t[1]
+        return f(t[3]) + conv + " " + f(t[4]) + " fb " + t[1] + R
     if k == "lft":
-        return flatten(t[3]) + " " + flatten(t[4]) + " lft %d %d" % (t[1], t[2])
+        return f(t[3]) + " " + f(t[4]) + " lft %d %d" % (t[1], t[2]) + R
     if k == "sel":
-        return flatten(t[3]) + " sel %d %s %d %s" % (
-            len(t[1]), " ".join(map(str, t[1])), len(t[2]), " ".join(map(str, t[2])))
+        return f(t[3]) + " sel %d %s %d %s" % (
+            len(t[1]), " ".join(map(str, t[1])), len(t[2]), " ".join(map(str, t[2]))) + R
     if k in BIN:
-        return flatten(t[1]) + " " + flatten(t[2]) + " " + k
+        return f(t[1]) + " " + f(t[2]) + " " + k + R
     raise ValueError(k)
 
 
@@ -175,10 +194,76 @@ def num_value(q, kind):
     return float(q)
 
 
-def build_leaf(t):
+def build_leaf(t, kw=False):
     _, n, p, m, dt, A, B, C, D = t
     f = lambda v, r, c: np.array([float(Fraction(x)) for x in v], dtype=float).reshape(r, c)
+    if kw:      # (rus) the documented keyword of the constructor
+        return ct.StateSpace(f(A, n, n), f(B, n, m), f(C, p, n), f(D, p, m), dt_value(dt),
+                             remove_useless_states=True)
     return ct.StateSpace(f(A, n, n), f(B, n, m), f(C, p, n), f(D, p, m), dt_value(dt))
+
+
+# >>> rus --------------------------------------------------------------------------------------
+RUS_HOW = ("set_defaults", "dict", "legacy", "kw")
+RUS_SCOPE = ("ops", "all", "leaves")
+
+
+class rus_config:
+    """`with rus_config(how):` the configuration history that switches the option on; on exit the
+    configuration is exactly what it was before (all keys, whatever the library call changed)."""
+
+    def __init__(self, how):
+        self.how = how
+
+    def __enter__(self):
+        self.saved = dict(ct.config.defaults)
+        if self.how == "set_defaults":
+            ct.set_defaults("statesp", remove_useless_states=True)
+        elif self.how == "dict":
+            ct.config.defaults["statesp.remove_useless_states"] = True
+        elif self.how == "legacy":
+            import warnings
+            with warnings.catch_warnings():
+                warnings.simplefilter("ignore")
+                ct.use_legacy_defaults("0.8.3")
+        return self
+
+    def __exit__(self, *exc):
+        for k in [k for k in ct.config.defaults if k not in self.saved]:
+            del ct.config.defaults[k]
+        ct.config.defaults.update(self.saved)
+        return False
+
+
+def rus_of(case):
+    """(how, leaves built with the option, operators run with the option)"""
+    r = case.get("rus")
+    if not r:
+        return None, False, False
+    how, scope = r
+    assert how in RUS_HOW and scope in RUS_SCOPE and (how != "kw" or scope == "leaves"), r
+    return how, scope in ("all", "leaves"), scope in ("ops", "all")
+
+
+def sys_leaves(t, acc=None):
+    acc = [] if acc is None else acc
+    if t[0] == "L":
+        acc.append(t)
+    for i in children(t):
+        sys_leaves(t[i], acc)
+    return acc
+
+
+def structural(t):
+    """a system leaf of the tree has a zero row or a zero column in its state matrix"""
+    for lf in sys_leaves(t):
+        n, A = lf[1], lf[5]
+        for i in range(n):
+            if all(Fraction(A[i * n + j]) == 0 for j in range(n)) or \
+                    all(Fraction(A[j * n + i]) == 0 for j in range(n)):
+                return True
+    return False
+# <<< rus --------------------------------------------------------------------------------------
 
 
 def key(t):
@@ -428,7 +513,8 @@ class C02(Family):
                      "CtrlVerif.Props.C02GenBasic", "CtrlVerif.Props.C02GenMul", "CtrlVerif.Props.C02GenAdd",
                      "CtrlVerif.Props.C02GenFeedback", "CtrlVerif.Props.C02GenPow", "CtrlVerif.Props.C02GenLft",
                      "CtrlVerif.Props.C02Gen",
-                     "CtrlVerif.Props.C02Bdalg"]     # (bdalg) n-ary series / parallel / append folds
+                     "CtrlVerif.Props.C02Bdalg",     # (bdalg) n-ary series / parallel / append folds
+                     "CtrlVerif.Props.C02Rus"]       # (rus) the option remove_useless_states keeps every value
 
     def pre_build(self):
         import os
@@ -459,6 +545,13 @@ class C02(Family):
         "evaluation of the fold tree: C02.Bd.bdalg_eq_eval); a leading constant followed by another "
         "constant is the static gain it stands for (DSS.bdSeed) - where python-control evaluates "
         "`M2 * M1` / `M.append` with NumPy instead, the difference is reported (two known findings)",
+        "option remove_useless_states (cases with the key `rus`): the model's program applies the rule "
+        "(Convert.removeUseless, exact zero tests) after every leaf / every node whose evaluation ends in "
+        "a StateSpace(...) call; the code also applies it at constructor calls inside an operator and "
+        "tests floats, so a result is accepted when it is the model's realisation, or has the model's "
+        "transfer matrix at 2n+1 non-zero rational points (C02.Rus.construct_resp: no value changes at "
+        "s != 0) with - on exact data - not more states than the model's program leaves; the harness "
+        "restores config.defaults after every evaluation",
         "TransferFunction operands of StateSpace operators go through tf2ss, which is C03",
         "the timebase of results is decided by C05; C02 uses operands with compatible timebases"]
     rule = ("random expression trees over StateSpace leaves (nstates 0..3, shapes {1,2,3}^2, integer "
@@ -477,7 +570,13 @@ class C02(Family):
             "broadcast anywhere in the call, the same system object several times), control.negate, "
             "control.feedback / StateSpace.feedback with explicit and default sign / feedback path and "
             "a constant forward path, alone, nested in the random trees and as operands of each other; "
-            "calls whose fold starts on two constants; a case is non-trivial when it has a "
+            "calls whose fold starts on two constants; operands with structural zeros (integrator banks, "
+            "strictly triangular chains, zero rows / columns of A, zero rows of B, zero columns of C in "
+            "every combination) in products / series / sums / feedback / indexing / append / powers, "
+            "evaluated with the option remove_useless_states off and on - switched on by set_defaults, "
+            "by the config.defaults entry, by use_legacy_defaults('0.8.3') or by the constructor keyword, "
+            "for the operators only, for operands and operators, or for the operands only; "
+            "a case is non-trivial when it has a "
             "leaf with states, at least one binary operator or feedback, and the model result has "
             "states; distinct = distinct canonical serialisation")
 
@@ -488,6 +587,7 @@ class C02(Family):
     _pool = None          # operand pool (dict) while a tree with re-used operands is generated
     _ops = None           # restriction of the operator set of `gen` (None: all)
     _decimal = False      # leaves / arrays with one-decimal (non-dyadic) data
+    _sparse = False       # (rus) leaves with structural zeros: zero rows / columns of A, B, C
 
     def pooled(self, rng, k, make):
         """operand pool: with probability 0.6 an operand generated earlier for the same tree (same
@@ -521,6 +621,8 @@ class C02(Family):
             if invertible and p == m and exmat.det(exmat.from_flat(D, p, m)) == 0:
                 continue
             break
+        if self._sparse and n > 0 and rng.random() < 0.85:
+            A, B, C = self.sparsify(rng, n, p, m, A, B, C)
         if self._decimal:            # one-decimal data: not representable, every operation rounds
             dec = lambda v: [Fraction(10 * x + rng.randint(-4, 4), 10) for x in v]
             A, B, C = dec(A), dec(B), dec(C)
@@ -1127,6 +1229,110 @@ class C02(Family):
         return [fn] + ops
     # <<< bdalg -------------------------------------------------------------------------------
 
+    # >>> rus: operands with structural zeros, the option remove_useless_states -------------------
+    RUS_EXACT_OPS = ("add", "add", "sub", "mul", "mul", "mul", "neg", "sel", "append", "pow",
+                     "series", "series", "parallel", "negate", "appendn")
+
+    def sparsify(self, rng, n, p, m, A, B, C):
+        """structural zeros: integrator banks (A = 0), integrator / lag chains (strictly triangular
+        A), triangular A with zeros on the diagonal, zero rows / columns of A, zero rows of B
+        (undriven states), zero columns of C (states that are not read out).  Every combination
+        occurs: states that really are useless (row of A and of B zero; column of A and of C
+        zero) and states that only look so to a wrong pairing (row of A and column of C zero:
+        an integrator that drives other states; column of A and row of B zero: a state driven
+        only by other states)."""
+        A, B, C = list(A), list(B), list(C)
+        nz = lambda: rng.choice([-2, -1, 1, 2])
+        r = rng.random()
+        low = rng.random() < 0.5
+        if r < 0.25:
+            A = [0] * (n * n)
+        elif r < 0.45:
+            A = [A[i * n + j] if (i > j if low else i < j) else 0 for i in range(n) for j in range(n)]
+            for i in range(1, n):
+                ix = i * n + i - 1 if low else (i - 1) * n + i
+                if A[ix] == 0:
+                    A[ix] = nz()
+        elif r < 0.65:
+            A = [A[i * n + j] if (i >= j if low else i <= j) else 0 for i in range(n) for j in range(n)]
+            for i in range(n):
+                if rng.random() < 0.5:
+                    A[i * n + i] = 0
+        for i in range(n):
+            if rng.random() < 0.25:
+                for j in range(n):
+                    A[i * n + j] = 0
+            if rng.random() < 0.25:
+                for j in range(n):
+                    A[j * n + i] = 0
+        for i in range(n):
+            if rng.random() < 0.3:
+                for j in range(m):
+                    B[i * m + j] = 0
+            if rng.random() < 0.3:
+                for j in range(p):
+                    C[j * n + i] = 0
+        return A, B, C
+
+    def rus_pattern(self, rng, dt):
+        """a factor G1 with structural zeros placed BEFORE a (mostly strictly proper) factor G2 in a
+        product / series, alone and used further: the states of G1 reach the output only through
+        the states of G2"""
+        k, p, m = rng.choice([1, 2, 2, 3]), rng.choice([1, 1, 2]), rng.choice([1, 2, 3])
+        G1 = self.leaf(rng, (k, m), dt, n=rng.choice([1, 2, 2, 3]))
+        G2 = self.leaf(rng, (p, k), dt, n=rng.choice([1, 2]))
+        if rng.random() < 0.6:
+            G2[8] = ["0"] * (p * k)
+        prod = rng.choice([["mul", G2, G1], ["mul", G2, G1], ["series", G1, G2]])
+        if rng.random() < 0.2:
+            G0 = self.leaf(rng, (m, m), dt, n=rng.choice([1, 2]))
+            prod = ["series", G0, G1, G2] if prod[0] == "series" else ["mul", prod, G0]
+        G3 = self.leaf(rng, (p, m), dt)
+        r = rng.random()
+        if r < 0.25:
+            return prod
+        if r < 0.45:
+            return [rng.choice(["add", "sub"]), prod, G3]
+        if r < 0.55:
+            return [rng.choice(["add", "sub", "parallel"]), G3, prod]
+        if r < 0.65:
+            K = self.leaf(rng, (m, p), dt, n=rng.choice([0, 1]))
+            return ["fb", rng.choice(["1", "-1"]), rng.choice(["method", "func"]), prod, K]
+        if r < 0.75:
+            return [rng.choice(["neg", "negate"]), prod]
+        if r < 0.85:
+            rows = sorted(rng.sample(range(p), rng.randint(1, p)))
+            cols = sorted(rng.sample(range(m), rng.randint(1, m)))
+            return ["sel", rows, cols, prod]
+        if r < 0.93:
+            return ["append", prod, G3] if rng.random() < 0.5 else ["append", G3, prod]
+        return ["mul", self.array(rng, (rng.choice([1, 2]), p)), prod]
+
+    def gen_rus(self, rng, dt):
+        """a CASE: a tree over operands with structural zeros, and the configuration history under
+        which it is evaluated (15 %: none - the option off)"""
+        self._sparse = True
+        self._pool = {} if rng.random() < 0.4 else None
+        try:
+            for _ in range(30):
+                if rng.random() < 0.45:
+                    tree = self.rus_pattern(rng, dt)
+                else:
+                    self._ops = None if rng.random() < 0.3 else self.RUS_EXACT_OPS
+                    tree = self.gen(rng, rng.choice([1, 2, 2]), self.rshape(rng), dt)
+                if const_prefix(tree) is None and has_dynamic_leaf(tree) and size(tree) > 1:
+                    break
+            else:
+                tree = self.rus_pattern(rng, dt)
+        finally:
+            self._sparse, self._pool, self._ops = False, None, None
+        if rng.random() < 0.15:
+            return {"tree": tree}
+        how = rng.choice(["set_defaults", "set_defaults", "dict", "dict", "dict", "legacy", "kw"])
+        scope = "leaves" if how == "kw" else rng.choice(["ops", "ops", "ops", "all", "all", "leaves"])
+        return {"tree": tree, "rus": [how, scope]}
+    # <<< rus -----------------------------------------------------------------------------------
+
     def special(self, rng):
         """streams that need something specific"""
         dt = rng.choice(["C", "C", "N", "T", DT01])
@@ -1203,13 +1409,30 @@ class C02(Family):
         for i in range(10 if q else 80):         # ... whose fold starts on constants only
             out.append({"tree": self.bd_const_prefix(rng, rng.choice(dts))})
         # <<< bdalg
+        # >>> rus: structural zeros in the operands; the option remove_useless_states switched on
+        for i in range(90 if q else 1200):
+            out.append(self.gen_rus(rng, rng.choice(dts + ["D1/4"])))
+        # <<< rus
         return out
 
     def corpus(self):
         L = lambda n, p, m, A, B, C, D, dt="C": ["L", n, p, m, dt] + [[str(x) for x in v] for v in (A, B, C, D)]
         g32 = L(1, 3, 2, [-1], [1, 2], [1, 0, 3], [0] * 6)
         g22 = L(1, 2, 2, [-1], [1, 2], [1, 3], [0] * 4)
+        # (rus) integrator bank before a strictly proper lag: G2 * G1, series(G1, G2), G2 * G1 + G3
+        i23 = L(2, 2, 3, [0, 0, 0, 0], [1, 2, 0, 0, 1, -1], [1, 0, 1, 1], [0] * 6)
+        l12 = L(2, 1, 2, [-1, 1, 0, -2], [1, 0, 1, 1], [1, -1], [0, 0])
+        g13 = L(1, 1, 3, [-3], [1, 0, 2], [1], [0, 1, 0])
+        # (rus) a state with a zero row of A that is not read out but drives the other state
+        hid = L(2, 1, 1, [0, 0, 1, -1], [1, 0], [0, 1], [0])
         return [
+            {"tree": ["mul", l12, i23], "rus": ["dict", "ops"]},
+            {"tree": ["series", i23, l12], "rus": ["set_defaults", "ops"]},
+            {"tree": ["add", ["mul", l12, i23], g13], "rus": ["legacy", "all"]},
+            {"tree": ["sub", ["mul", l12, i23], g13], "rus": ["dict", "all"]},
+            {"tree": ["add", hid, ["S", "1", "int"]], "rus": ["kw", "leaves"]},
+            {"tree": ["mul", L(1, 1, 1, [-1], [1], [1], [0]), L(1, 1, 1, [0], [1], [1], [0])],
+             "rus": ["set_defaults", "all"]},
             {"tree": ["add", g32, ["A", 3, 2, ["1"] * 6, "float"]]},
             {"tree": ["add", g22, ["A", 2, 1, ["1", "2"], "float"]]},
             {"tree": ["fb", "1", "method", L(1, 1, 1, [-1], [1], [1], [0]), L(1, 1, 1, [-2], [1], [1], [1])]},
@@ -1240,16 +1463,26 @@ class C02(Family):
 
     # ---- execution ----------------------------------------------------------
     def line(self, case):
-        return "ss " + flatten(case["tree"])
+        how, rl, ro = rus_of(case)
+        return "ss " + flatten(case["tree"], rl, ro)
 
     def impl(self, case):
         """first evaluation of the tree, and - on the SAME operand objects - a second one; the
         second result is recorded (`again`) only when it is not identical to the first"""
         leaves = {}
+        # (rus) the configuration history of the case: the operands are built first (with the
+        # option on for the scopes "all" / "leaves": keyword or configuration), the operators run
+        # under the configuration of the scopes "ops" / "all"; the configuration is restored
+        how, rl, ro = rus_of(case)
+        if how is not None:
+            with rus_config(how if rl and how != "kw" else None):
+                for lf in sys_leaves(case["tree"]):
+                    leaves.setdefault(key(lf), build_leaf(lf, kw=(how == "kw")))
 
         def once():
             try:
-                r = run_tree(case["tree"], leaves, {})
+                with rus_config(how if ro else None):
+                    r = run_tree(case["tree"], leaves, {})
             except Exception as e:  # noqa
                 return {"err": classify_exc(e), "exc": "%s: %s" % (type(e).__name__, str(e)[:200])}
             try:
@@ -1365,10 +1598,12 @@ class C02(Family):
             if one_by_zero(b):
                 feat["one_by_zero"] = True
             return Verdict(VIOLATES, "shape %dx%d vs model %dx%d" % (a["p"], a["m"], b["p"], b["m"]), feat)
+        exact_regime = model.get("bits", 0) <= 50 and not inexact(t)
+        if case.get("rus"):
+            return self.compare_rus(case, impl, model, exact_regime)
         if a["n"] != b["n"]:
             return Verdict(VIOLATES, "state dimension %d, sum of the operands' is %d" % (a["n"], b["n"]),
                            self.features(case, "nstates", impl))
-        exact_regime = model.get("bits", 0) <= 50 and not inexact(t)
         same = True
         for nm in "ABCD":
             if exact_regime:
@@ -1387,6 +1622,42 @@ class C02(Family):
             return Verdict(DIFFERS, "timebase %s vs model %s (decided by C05)" % (a["dt"], b["dt"]),
                            self.features(case, "dt", impl))
         return Verdict(AGREE)
+
+    # >>> rus
+    def compare_rus(self, case, impl, model, exact_regime):
+        """results under the option remove_useless_states.  The model's program removes the useless
+        states where every node's last constructor call does (exact zero tests); the code also does
+        it at the constructor calls inside an operator (SISO promotion, powers, division) and
+        tests floats.  So: same realisation -> agree; otherwise the transfer matrices are compared
+        (C02.Rus.construct_resp: the option changes no value at s != 0; POINTS are non-zero) and
+        the implementation may have FEWER states than the model's program (more passes), or - in
+        the tolerance regime only - more (a rounded zero is not a zero)."""
+        a, b = impl["ok"], model["ok"]
+        same = a["n"] == b["n"]
+        if same:
+            for nm in "ABCD":
+                if exact_regime:
+                    same = same and a[nm] == b[nm]
+                else:
+                    same = same and exmat.close([[Fraction(x) for x in a[nm]]],
+                                                [[Fraction(x) for x in b[nm]]], TOL)
+        if not same:
+            d = self.transfer_differs(a, b, exact_regime)
+            if d is not None:
+                feat = self.features(case, "value", impl)
+                feat["rus"] = case["rus"][1]
+                return Verdict(VIOLATES, "transfer matrix differs (option remove_useless_states on: "
+                               "%s, %s; %d states, model %d): %s"
+                               % (case["rus"][0], case["rus"][1], a["n"], b["n"], d), feat)
+            if exact_regime and a["n"] > b["n"]:
+                feat = self.features(case, "rus-states", impl)
+                return Verdict(DIFFERS, "option remove_useless_states: %d states returned, the model's "
+                               "rule leaves %d (transfer matrix equal)" % (a["n"], b["n"]), feat)
+        if a["dt"] != b["dt"]:
+            return Verdict(DIFFERS, "timebase %s vs model %s (decided by C05)" % (a["dt"], b["dt"]),
+                           self.features(case, "dt", impl))
+        return Verdict(AGREE)
+    # <<< rus
 
     def nontrivial(self, case, model):
         t = case["tree"]
@@ -1411,6 +1682,15 @@ class C02(Family):
             st["illposed_rounded"] = "error-demanded" if rank_demand(t) is not None else "guarded"
         lv = leaf_keys(t)
         st["operand_reused"] = len(lv) != len(set(lv))
+        if case.get("rus"):                      # (rus) option on: how, where, and what it did
+            st["rus"] = "%s/%s" % tuple(case["rus"])
+            if "ok" in model and "ok" in impl and model["ok"]["type"] == "ss" and impl["ok"].get("type") == "ss":
+                full = sum(lf[1] for lf in sys_leaves(t))
+                st["rus_effect"] = ("dropped" if impl["ok"]["n"] < full else "kept-all") if \
+                    not any(o in ("pow", "pow-", "div") or o in NARY for o in ops_in(t)) else "n/a"
+                st["rus_states"] = "same" if impl["ok"]["n"] == model["ok"]["n"] else \
+                    ("fewer" if impl["ok"]["n"] < model["ok"]["n"] else "more")
+        st["structural_A"] = structural(t)
         calls = nary_calls(t)                    # (bdalg) function / operand count of the largest call
         if calls:
             fn, n = max(calls, key=lambda c: c[1])
@@ -1419,6 +1699,13 @@ class C02(Family):
 
     # ---- shrinking / search ----------------------------------------------------
     def shrink(self, case):
+        if case.get("rus"):          # (rus) the configuration history stays with the tree
+            for c in self.shrink({"tree": case["tree"]}):
+                if not (rus_of(case)[2] and const_prefix(c["tree"]) is not None):
+                    yield {"tree": c["tree"], "rus": case["rus"]}
+            if case["rus"] != ["dict", "ops"] and case["rus"][1] != "leaves":
+                yield {"tree": case["tree"], "rus": ["dict", "ops"]}
+            return
         t = case["tree"]
 
         def subtrees(t):
